@@ -15,7 +15,10 @@ inductive Pro where
   | check              -- presolve_controls_to_run = self._presolve_controls.check()
   | sortPrio           -- .sort(key=lambda i: i[0]._priority)
   | sortBackRev        -- .sort(key=lambda i: i[1], reverse=True)
-  | firstStepZero      -- if first_step: [(c, 0) for c, b in …]
+  | firstStepZero      -- if first_step: [(c, 0) for c, b in …]   (the shape before /repo 7d8c4ce1: no longer generated)
+  | firstStepZeroElseClamp
+                       -- if first_step: [(c, 0) …] else: max_back = max(int(sim_time - _prev_sim_time) - 1, 0);
+                       --                                 [(c, min(max(b, 0), max_back)) for c, b in …]
   | cntZero            -- cnt = 0
   | setRef | delRef    -- change tracker reference point 'presolve'
   deriving Repr, DecidableEq
@@ -118,6 +121,9 @@ def Pro.run (cfg : Cfg) (first : Bool) (s : St) (l : List Due) : Pro → List Du
   | .sortPrio => sortBy (fun a b => a.ctl.prio ≤ b.ctl.prio) l
   | .sortBackRev => sortBy (fun a b => a.back ≥ b.back) l
   | .firstStepZero => if first then l.map (fun d => { d with back := 0 }) else l
+  | .firstStepZeroElseClamp =>
+    if first then l.map (fun d => { d with back := 0 })
+    else l.map (fun d => { d with back := min (max d.back 0) (max (s.simTime - s.prevTime - 1) 0) })
   | .cntZero | .setRef | .delRef => l
 
 def runPrologue (cfg : Cfg) (first : Bool) (s : St) (ps : List Pro) : List Due :=
